@@ -479,6 +479,7 @@ def enumerate_cases(tier, seed):
             yield {"mode": "idle-crowd", "servertype": st_, "idle": idle}
     for st_ in ("ForkingTCPServer", "ThreadingTCPServer"):
         yield {"mode": "bad-handshakes", "servertype": st_, "n": 90}
+        yield {"mode": "reset-during-relay", "servertype": st_}
     # a crowd of different large downloads and scripts, all released at once
     for st_ in ("ThreadingTCPServer", "ForkingTCPServer"):
         yield {"mode": "burst", "crowd": True, "servertype": st_}
@@ -601,7 +602,73 @@ def _check_bad_handshakes(case, ctx):
         world.rmtree(base)
 
 
+def _check_reset_during_relay(case, ctx):
+    """Three clients are downloading the output of a script (relayed by the server block by block) when a fourth asks for
+    the same script, reads a little and resets its connection: the three get exactly what a client gets alone, and the
+    server goes on serving."""
+    import struct
+    script = "#!/bin/sh\ni=0\nwhile [ $i -lt 30 ]; do head -c 65536 /dev/zero | tr '\\0' 'z'; sleep 0.05; i=$((i+1)); done\necho end\n"
+    base, root = world.build([["slow.sh", "f", script, 0o755], ["hello.txt", "f", "hello\n"]], "c14")
+    srv = None
+    fails = []
+    try:
+        srv = live.Server(live.write_conf(os.path.join(base, "s.conf"), root, "full", case["servertype"], timeout=20))
+        plan = [("gopher", False), ("http", False), ("gophers", True)]
+        ref = {}
+        for form, tls in plan:
+            ref[form] = live.request(srv.port, clients.encode(form, b"/slow.sh"), tls, timeout=30)
+        got = {}
+
+        def fetch(form, tls):
+            try:
+                got[form] = live.request(srv.port, clients.encode(form, b"/slow.sh"), tls, timeout=30)
+            except Exception as e:  # noqa
+                got[form] = e
+        ths = [threading.Thread(target=fetch, args=p_, daemon=True) for p_ in plan]
+        for t in ths:
+            t.start()
+        time.sleep(0.4)
+        a = live.connect(srv.port, 10)
+        a.sendall(b"/slow.sh\r\n")
+        n = 0
+        while n < 1000:
+            b_ = a.recv(1000 - n)
+            if not b_:
+                break
+            n += len(b_)
+        a.setsockopt(socket.SOL_SOCKET, socket.SO_LINGER, struct.pack("ii", 1, 0))
+        a.close()
+        for t in ths:
+            t.join(40)
+        ctx.nontriv((case["servertype"], "reset-during-relay"))
+        ctx.label("reset-during-relay:" + case["servertype"])
+        ctx.sample(case, cls="reset-during-relay")
+        for form, tls in plan:
+            g = got.get(form)
+            if isinstance(g, Exception) or g is None:
+                fails.append(Fail("reset-during-relay:failed:%s" % case["servertype"],
+                                  "while another client reset its connection in mid-download the %s download of the script failed: %r" % (form, g)))
+            elif _mask(g) != _mask(ref[form]):
+                fails.append(Fail("reset-during-relay:differs:%s" % case["servertype"],
+                                  "while another client reset its connection in mid-download the %s download of the script delivered %d "
+                                  "bytes, alone it delivers %d" % (form, len(g), len(ref[form]))))
+        try:
+            if live.request(srv.port, b"/hello.txt\r\n", timeout=8) != b"hello\n":
+                fails.append(Fail("reset-during-relay:server-impaired:%s" % case["servertype"], "afterwards the server answers wrongly"))
+        except Exception as e:  # noqa
+            fails.append(Fail("reset-during-relay:server-impaired:%s" % case["servertype"], "afterwards the server does not answer: %r" % (e,)))
+        if not srv.alive():
+            fails.append(Fail("reset-during-relay:server-died:%s" % case["servertype"], "the server process is gone"))
+        return _dedup(fails)
+    finally:
+        if srv is not None:
+            srv.stop()
+        world.rmtree(base)
+
+
 def check_case(case, ctx):
+    if case["mode"] == "reset-during-relay":
+        return _check_reset_during_relay(case, ctx)
     if case["mode"] == "idle-crowd":
         return _check_idle_crowd(case, ctx)
     if case["mode"] == "bad-handshakes":
